@@ -153,6 +153,13 @@ fn c30_name_heap_history_k4() {
     heap_history(4);
 }
 
+#[kani::proof]
+#[kani::unwind(8)]
+#[kani::stub(alloc::fmt::format, fmt_stub)]
+fn c30_name_heap_history_k6() {
+    heap_history(6);
+}
+
 // ---- creation paths ---------------------------------------------------------------------------------
 #[kani::proof]
 #[kani::unwind(5)]
